@@ -200,3 +200,86 @@ func TestVerifBounded_C04_KV(t *testing.T) {
 		t.Fatalf("%d mismatches", fails)
 	}
 }
+
+// Partition ring: removing partitions / owners by a local update leaves tombstones that are forwarded and that beat every
+// earlier message, also when the update removes the LAST live partition and owner (the incoming value is then empty).
+func TestVerifBounded_C04_PartitionRemovals(t *testing.T) {
+	cases, fails := 0, 0
+	report := func(id, msg string) {
+		fails++
+		if fails <= 5 {
+			fmt.Printf("BOUNDED-VIOLATION case=%s %s\n", id, msg)
+		}
+	}
+	removal := time.Unix(1000, 0)
+	for _, nParts := range []int{1, 2} {
+		for _, nOwners := range []int{1, 2} {
+			for rmask := 1; rmask < 1<<(nParts+nOwners); rmask++ { // which partitions / owners the local update removes
+				cases++
+				id := fmt.Sprintf("c04p:parts=%d:owners=%d:remove=%b", nParts, nOwners, rmask)
+				replica := NewPartitionRingDesc()
+				for p := 0; p < nParts; p++ {
+					replica.AddPartition(int32(p), PartitionActive, time.Unix(500, 0))
+				}
+				for o := 0; o < nOwners; o++ {
+					replica.AddOrUpdateOwner(fmt.Sprintf("o%d", o), OwnerActive, int32(o%nParts), time.Unix(500, 0))
+				}
+				earlier := replica.Clone().(*PartitionRingDesc)
+				// what a CAS function sees and returns: the value without tombstones, minus the removed entries
+				next := replica.Clone().(*PartitionRingDesc)
+				next.RemoveTombstones(time.Time{})
+				var removedParts []int32
+				var removedOwners []string
+				for p := 0; p < nParts; p++ {
+					if rmask&(1<<p) != 0 {
+						next.RemovePartition(int32(p))
+						removedParts = append(removedParts, int32(p))
+					}
+				}
+				for o := 0; o < nOwners; o++ {
+					if rmask&(1<<(nParts+o)) != 0 {
+						next.RemoveOwner(fmt.Sprintf("o%d", o))
+						removedOwners = append(removedOwners, fmt.Sprintf("o%d", o))
+					}
+				}
+				change, err := replica.mergeWithTime(next, true, removal)
+				if err != nil {
+					t.Fatal(err)
+				}
+				peer := earlier.Clone().(*PartitionRingDesc)
+				if change == nil {
+					report(id+":no-change", fmt.Sprintf("the local update removed partitions %v and owners %v but reported no change (nothing is forwarded to peers)", removedParts, removedOwners))
+				} else if _, err := peer.Merge(change.(*PartitionRingDesc).Clone(), false); err != nil {
+					t.Fatal(err)
+				}
+				for name, d := range map[string]*PartitionRingDesc{"origin": replica, "peer": peer} {
+					// an earlier message, delayed and duplicated
+					_, _ = d.Merge(earlier.Clone(), false)
+					_, _ = d.Merge(earlier.Clone(), false)
+					view := d.Clone().(*PartitionRingDesc)
+					view.RemoveTombstones(time.Time{})
+					for _, p := range removedParts {
+						if _, ok := view.Partitions[p]; ok {
+							report(id+":partition-visible", fmt.Sprintf("%s: removed partition %d is visible to readers after an earlier message", name, p))
+						}
+						if e, ok := d.Partitions[p]; !ok || e.State != PartitionDeleted {
+							report(id+":partition-tombstone", fmt.Sprintf("%s: no retained tombstone for removed partition %d (%v)", name, p, e))
+						}
+					}
+					for _, o := range removedOwners {
+						if _, ok := view.Owners[o]; ok {
+							report(id+":owner-visible", fmt.Sprintf("%s: removed owner %s is visible to readers after an earlier message", name, o))
+						}
+						if e, ok := d.Owners[o]; !ok || e.State != OwnerDeleted {
+							report(id+":owner-tombstone", fmt.Sprintf("%s: no retained tombstone for removed owner %s (%v)", name, o, e))
+						}
+					}
+				}
+			}
+		}
+	}
+	fmt.Printf("BOUNDED-CASES name=C04_PartitionRemovals n=%d distinct=%d bound=partition rings of 1..2 partitions x 1..2 owners, every non-empty subset removed by one local update (incl. everything), origin and peer replica, duplicated earlier message\n", cases, cases)
+	if fails > 0 {
+		t.Fatalf("%d mismatches", fails)
+	}
+}
